@@ -18,10 +18,117 @@ RULE = c13.RULE + " Oracle clauses: rate <= ceiling; rate >= 23 once sending; no
 
 MINR = 23
 
-def streams(rng, tier, ctx):
-    return c13.streams(rng, tier, ctx)
+def component_stream(rng, tier):
+    """SendRateComp on its own (mode `rate`): arbitrary feedback sequences, incl. values only a misbehaving or very unusual peer
+    produces (RTT samples 0 ms .. minutes, receive rates 0 .. u32::MAX, loss event rates 0, 1e-9 .. 1, repeated / minimally changed)."""
+    import struct
+    def bits(x): return struct.unpack(">Q", struct.pack(">d", x))[0]
+    n = 30 if tier == "quick" else 600
+    it = Interactive("rate")
+    cases = []; meta = {}
+    try:
+        for i in range(n):
+            r = rng.fork()
+            it.op("=== gen%d" % i)
+            ops = []; outs = []
+            def op(line):
+                o = it.op(line); ops.append(line); outs.append(o); return o
+            mx = r.pick([1472, 10_000, 2_000_000, 2_000_000, 20_000_000, 2**31, 2**32 - 1])
+            op("new %d" % mx)
+            t = r.pick([0, 5, 1000])
+            op("sent %d" % t)
+            p = 0.0
+            rtt = r.pick([0, 1, 10, 100, 100, 1000])
+            recv = r.pick([1000, 100_000, 10_000_000])
+            grow = r.chance(1, 2)              # receive rate follows the send rate (the sender is not application limited)
+            for k in range(r.range(20, 120)):
+                if outs and (outs[-1].startswith("trap") or outs[-1] in ("hang", "dead")):
+                    break
+                t += r.pick([0, 1, 10, 100, 100, 1000, 1000, 5000, 30000])
+                what = r.weighted([("fb", 6), ("none", 3), ("sent", 2)])
+                if what == "sent":
+                    op("sent %d" % t); continue
+                if what == "none":
+                    op("step %d" % t); continue
+                kind = r.weighted([("same", 4), ("tiny_first", 2 if p == 0.0 else 0), ("up", 2), ("down", 2), ("ulp", 1), ("eps", 1), ("big", 1), ("zero", 1), ("one", 1)])
+                if kind == "tiny_first": p = r.pick([1e-9, 9e-7, 1e-6, 1.1e-6, 1e-5])
+                elif kind == "up": p = min(1.0, p * r.pick([1.5, 2, 10]) if p > 0 else r.pick([1e-4, 0.01, 0.1]))
+                elif kind == "down": p = p / r.pick([1.01, 2, 10])
+                elif kind == "ulp": p = struct.unpack(">d", struct.pack(">Q", bits(p) + 1))[0] if p < 1.0 else p
+                elif kind == "eps": p = min(1.0, p + r.pick([1e-7, 9e-7, 1e-6, 2e-6]))
+                elif kind == "big": p = r.pick([0.3, 0.9, 1.0])
+                elif kind == "zero": p = 0.0
+                elif kind == "one": p = 1.0
+                if r.chance(1, 6):
+                    rtt = r.pick([0, 1, 10, 100, 1000, 60000])
+                if grow and outs and outs[-1].startswith("rate="):
+                    recv = min(2**32 - 1, int(outs[-1].split("rate=")[1].split(",")[0]))
+                elif r.chance(1, 5):
+                    recv = r.pick([0, 1, 1000, 100_000, 10_000_000, 2**32 - 1])
+                op("step %d fb %d %d %d %d" % (t, rtt, recv, bits(p), r.pick([0, 0, 0, 1])))
+            cid = "q%d" % i
+            cases.append((cid, ops)); meta[cid] = None
+    finally:
+        it.close()
+    return {"name": "component", "mode": "rate", "cases": cases, "meta": meta, "case_timeout": 30}
 
-signature = c13.signature
+def streams(rng, tier, ctx):
+    return c13.streams(rng, tier, ctx) + [component_stream(rng, tier)]
+
+def component_oracle(ops, outs):
+    import struct
+    fails = []
+    for i, o in enumerate(outs):
+        if o.startswith("trap") or o in ("hang", "abort"):
+            # with arbitrary feedback the only admissible trap is a clock running backwards, which the generator never produces
+            return [{"oracle": "no_trap", "detail": "op#%d `%s` -> %s" % (i, ops[i][:100], o), "signature": {"oracle": "no_trap", "kind": o, "at": "rate-step"}}]
+    prev = None; mx = None; prev_p = 0.0; eqn_key = None
+    for op, o in zip(ops, outs):
+        w = op.split(" ")
+        if w[0] == "new":
+            mx = int(w[1]); continue
+        if w[0] != "step" or not o.startswith("rate="):
+            continue
+        f = o.split(" ")[0][5:].split(",")
+        rate, mode, tcp, rttb, pbits = int(f[0]), int(f[2]), int(f[3]), f[6], int(f[10])
+        fb = len(w) > 2
+        if rate > mx:
+            return [{"oracle": "rate_le_ceiling", "detail": "send rate %d > max_send_rate %d after `%s`" % (rate, mx, op), "signature": {"oracle": "rate_le_ceiling", "mode": mode}}]
+        if mode >= 1 and mx >= MINR and rate < MINR:
+            return [{"oracle": "rate_floor", "detail": "send rate %d below s/64 after `%s`" % (rate, op), "signature": {"oracle": "rate_floor"}}]
+        if prev is not None and not fb and prev[1] >= 1 and rate > prev[0]:
+            return [{"oracle": "nofb_no_increase", "detail": "rate %d -> %d without feedback (`%s`)" % (prev[0], rate, op), "signature": {"oracle": "nofb_no_increase"}}]
+        if fb:
+            p = struct.unpack(">d", struct.pack(">Q", int(w[5])))[0]
+            # section 4.3: the first feedback that reports a loss event rate above the previous one ends slow start
+            if prev is not None and prev[1] == 1 and p > prev_p and mode != 2:
+                return [{"oracle": "loss_ends_slow_start", "detail": "feedback with loss event rate %.3g (previous %.3g) left the sender in slow start (`%s`)" % (p, prev_p, op),
+                         "signature": {"oracle": "loss_ends_slow_start"}}]
+            prev_p = p
+        if mode == 2 and rttb != "-":
+            key = (rttb, pbits)
+            if eqn_key is None:
+                eqn_key = key
+            elif key != eqn_key or eqn_key == "later":
+                eqn_key = "later"
+                rtt = c13.bits_to_float(rttb); pl = struct.unpack(">d", struct.pack(">Q", pbits))[0]
+                x = eqn(rtt, pl)
+                if rate > max(x, MINR):
+                    return [{"oracle": "rate_le_eqn_recomputed", "detail": "send rate %d > X_Bps(rtt %.6f s, p %.6g) = %d after `%s`" % (rate, rtt, pl, x, op),
+                             "signature": {"oracle": "rate_le_eqn_recomputed"}}]
+        elif mode != 2:
+            eqn_key = None
+        prev = (rate, mode)
+    return fails
+
+def signature(ops, outs):
+    if ops and ops[0].startswith("new "):
+        steps = [o for op, o in zip(ops, outs) if op.startswith("step") and o.startswith("rate=")]
+        if len(steps) < 5:
+            return None
+        modes = tuple(sorted(set(o.split(",")[2] for o in steps)))
+        return ("component", ops[0], modes, min(len(steps) // 20, 6))
+    return c13.signature(ops, outs)
 
 def eqn(rtt, p):
     """eval_tcp_throughput(rtt, p) of send_rate.rs, including the saturating `as u32`."""
@@ -38,6 +145,8 @@ def eqn(rtt, p):
     return max(0, min(int(x) if abs(x) != float("inf") else (2**32 - 1 if x > 0 else 0), 2**32 - 1))
 
 def oracle(stream, cid, ops, outs):
+    if stream["mode"] == "rate":
+        return component_oracle(ops, outs)
     fails = H.trap_failures(ops, outs)
     sim = stream["meta"][cid]
     # walk the ops: for each endpoint, consecutive probes (after every tick) and whether an ack frame was handed to it in between
